@@ -9,9 +9,14 @@ description of the wire, and iff-characterisations for HTTP/3 frames and SETTING
                               length) is seen by the consumer as exactly its visible frames, in
                               order, with exactly their payloads; then the loop continues on what
                               follows
-* `h3_stream_end_*`        — how a stream can end: clean EOF, truncated varint at ANY byte of the
-                              type or length, a skipped frame whose declared length exceeds what
-                              remains (ANY length), a DATA/HEADERS payload cut short, a reserved type
+* `h3_stream_end_*`        — how a stream can end (repaired fork, /repo 690148e): clean EOF exactly at
+                              a frame boundary; `unexpectedEOF` for a truncated varint at ANY byte of
+                              the type or length and for a skipped frame whose declared length exceeds
+                              what remains (ANY length); a DATA/HEADERS payload cut short; a reserved
+                              type
+* `h3_eof_iff_boundary`    — `ParseNext` reports `io.EOF` ⇔ nothing is left, or the next frame is a
+                              COMPLETE skipped frame after which it reports `io.EOF` again: never
+                              inside a frame; `h3_settings_truncated_unexpected`
 * `h3_parse_fuel_irrelevant` — the loop bound of the model never matters
 * `h3_frame_verdict`       — one frame header: returned / parsed / rejected / skipped ⇔ its type
 * `h3_settings_accept_iff`, `h3_settings_eof_iff`, `h3_settings_frame_classes`
@@ -41,21 +46,25 @@ example : parseStream 5 [7, 1, 0,   1, 0x40, 2, 9, 9,   0x21, 0,   0, 1, 5] =
 theorem h3_stream_end_clean (k : Nat) : parseStream (k + 1) [] = [.eof] := by
   simp [parseStream, parseNext, Req.H3.Varint.read, parse]
 
-/-- … inside the type varint, at any byte (every proper prefix of an encoding fails to read). -/
-theorem h3_stream_end_in_type (k : Nat) (tail : Bytes) (e : PErr)
-    (h : Req.H3.Varint.read tail = .error e) : parseStream (k + 1) tail = [.eof] := by
+/-- … inside the type varint, at any byte (every proper prefix of an encoding fails to read): a
+truncated frame, not a clean end. -/
+theorem h3_stream_end_in_type (k : Nat) (tail : Bytes) (e : PErr) (hne : tail ≠ [])
+    (h : Req.H3.Varint.read tail = .error e) : parseStream (k + 1) tail = [.err .unexpectedEOF] := by
   rw [parseStream, trunc_type _ tail e h]
+  have : tail.isEmpty = false := by cases tail <;> simp_all
+  simp [this]
 
 /-- … inside the length varint, at any byte, whatever the type (also DATA, HEADERS, reserved). -/
 theorem h3_stream_end_in_length (k : Nat) (te tail : Bytes) (t : Nat) (ht : IsVarint te t) (e : PErr)
-    (h : Req.H3.Varint.read tail = .error e) : parseStream (k + 1) (te ++ tail) = [.eof] := by
+    (h : Req.H3.Varint.read tail = .error e) :
+    parseStream (k + 1) (te ++ tail) = [.err .unexpectedEOF] := by
   rw [parseStream, trunc_len _ te tail t ht e h]
 
-/-- … inside a skipped frame: a declared length of ANY size that exceeds what remains is EOF (the
-parser does not allocate or wait for it). -/
+/-- … inside a skipped frame: a declared length of ANY size that exceeds what remains is a
+truncated frame (the parser does not allocate or wait for it). -/
 theorem h3_stream_end_in_skipped (k : Nat) (te le part : Bytes) (t l : Nat) (ht : IsVarint te t)
     (hl : IsVarint le l) (hs : isSkipped t = true) (hp : part.length < l) :
-    parseStream (k + 1) (te ++ (le ++ part)) = [.eof] := by
+    parseStream (k + 1) (te ++ (le ++ part)) = [.err .unexpectedEOF] := by
   rw [parseStream, step_short_skip ht hl _ part hs hp]
 
 /-- … inside the payload of a DATA frame: the frame header is reported with the declared length,
@@ -77,8 +86,11 @@ theorem h3_stream_end_reserved (k : Nat) (te le rest : Bytes) (t l : Nat) (ht : 
   simp [h0, h1, h4, hr]
 
 example : parseStream 3 [0x40, 0x00, 5, 1, 2] = [.truncatedPayload 5 [1, 2]] := by decide
-example : parseStream 3 [0x21, 0xc0, 0xff, 0xff, 0xff, 0xff, 0xff, 0xff, 0xff, 1, 2, 3] = [.eof] := by decide
-example : parseStream 3 [0x80, 0, 0] = [.eof] := by decide
+example : parseStream 3 [0x21, 0xc0, 0xff, 0xff, 0xff, 0xff, 0xff, 0xff, 0xff, 1, 2, 3] =
+    [.err .unexpectedEOF] := by decide
+example : parseStream 3 [0x80, 0, 0] = [.err .unexpectedEOF] := by decide
+/-- a complete skipped frame and then nothing: clean end. -/
+example : parseStream 3 [0x21, 2, 7, 7] = [.eof] := by decide
 example : parseStream 3 [8, 0] = [.err (.reserved 8)] := by decide
 
 /-- **h3_parse_fuel_irrelevant**: any two loop bounds above the input length give the same
@@ -89,16 +101,17 @@ theorem h3_parse_fuel_irrelevant (f1 f2 : Nat) (input : Bytes) (h1 : input.lengt
 
 /-- **h3_frame_verdict**: one frame header `(t, l)` — any encodings — in front of any bytes:
 returned as DATA ⇔ `t = 0`, as HEADERS ⇔ `t = 1` (with the declared length, positioned right after
-the header), handed to the SETTINGS parser ⇔ `t = 4`, rejected as reserved ⇔ `t ∈ {2, 6, 8, 9}`,
-skipped with its `l` payload bytes otherwise (EOF when fewer remain). -/
+the header), handed to the SETTINGS parser ⇔ `t = 4` (its `io.EOF` for a short payload becoming
+`unexpectedEOF`), rejected as reserved ⇔ `t ∈ {2, 6, 8, 9}`, skipped with its `l` payload bytes
+otherwise (`unexpectedEOF` when fewer remain). -/
 theorem h3_frame_verdict (te le rest : Bytes) (t l fuel : Nat) (ht : IsVarint te t) (hl : IsVarint le l) :
     (t = 0 → parseNext (fuel + 1) (te ++ (le ++ rest)) = (.ok (.data l), rest)) ∧
     (t = 1 → parseNext (fuel + 1) (te ++ (le ++ rest)) = (.ok (.headers l), rest)) ∧
-    (t = 4 → parseNext (fuel + 1) (te ++ (le ++ rest)) = parseSettingsFrame l rest) ∧
+    (t = 4 → parseNext (fuel + 1) (te ++ (le ++ rest)) = truncated (parseSettingsFrame l rest)) ∧
     ((t = 2 ∨ t = 6 ∨ t = 8 ∨ t = 9) →
       parseNext (fuel + 1) (te ++ (le ++ rest)) = (.error (.reserved t), rest)) ∧
     (isSkipped t = true → rest.length < l →
-      parseNext (fuel + 1) (te ++ (le ++ rest)) = (.error .eof, [])) ∧
+      parseNext (fuel + 1) (te ++ (le ++ rest)) = (.error .unexpectedEOF, [])) ∧
     (isSkipped t = true → l ≤ rest.length →
       parseNext (fuel + 1) (te ++ (le ++ rest)) = parseNext fuel (rest.drop l)) ∧
     ((∃ f, (parseNext (fuel + 1) (te ++ (le ++ rest))).1 = .ok f ∧ (f = .data l ∨ f = .headers l)) →
@@ -127,10 +140,10 @@ theorem h3_frame_verdict (te le rest : Bytes) (t l fuel : Nat) (ht : IsVarint te
     · exfalso
       rw [hstep] at hf
       simp only [h4, show (4 : Nat) ≠ 0 by decide, show (4 : Nat) ≠ 1 by decide, ↓reduceIte] at hf
-      unfold parseSettingsFrame at hf
+      unfold parseSettingsFrame truncated at hf
       rename_i hd
       repeat' split at hf
-      all_goals (simp at hf; try (rcases hd with rfl | rfl <;> simp at hf))
+      all_goals (simp at hf; try (rcases hd with rfl | rfl <;> simp_all))
     · by_cases hr : isReservedType t = true
       · exfalso; rw [hstep] at hf; simp [h0, h1, h4, hr] at hf
       · simp [isSkipped, h0, h1, h4, hr]
@@ -149,6 +162,62 @@ theorem h3_frame_verdict (te le rest : Bytes) (t l fuel : Nat) (ht : IsVarint te
     rw [hstep] at hf
     simp [h0, h1, h4, hr] at hf
     exact ⟨hf.symm, hr⟩
+
+/-- **h3_eof_iff_boundary**: `ParseNext` reports `io.EOF` (clean end of the stream) ⇔ the input is
+empty, or it starts with a COMPLETE frame of a skipped type — type and length readable, all `l`
+declared payload bytes present — after which `ParseNext` reports `io.EOF` again. By induction: only
+at a frame boundary after complete skipped frames, never inside a frame header, a SETTINGS frame or
+a skipped payload (RFC 9114 §7.1). -/
+theorem h3_eof_iff_boundary (fuel : Nat) (input : Bytes) :
+    (parseNext (fuel + 1) input).1 = .error .eof ↔
+      (input = [] ∨ ∃ t r1 l r2, Req.H3.Varint.read input = .ok (t, r1) ∧
+        Req.H3.Varint.read r1 = .ok (l, r2) ∧ isSkipped t = true ∧ l ≤ r2.length ∧
+        (parseNext fuel (r2.drop l)).1 = .error .eof) := by
+  rw [parseNext]
+  constructor
+  · intro h
+    cases h1 : Req.H3.Varint.read input with
+    | error e =>
+      rw [h1] at h
+      left
+      cases input with
+      | nil => rfl
+      | cons b bs => simp at h
+    | ok p1 =>
+      obtain ⟨t, r1⟩ := p1
+      rw [h1] at h
+      simp only at h
+      cases h2 : Req.H3.Varint.read r1 with
+      | error e => rw [h2] at h; simp at h
+      | ok p2 =>
+        obtain ⟨l, r2⟩ := p2
+        rw [h2] at h
+        simp only at h
+        exact .inr ⟨t, r1, l, r2, rfl, h2, (branch_eof t l r2 fuel).mp h⟩
+  · rintro (rfl | ⟨t, r1, l, r2, h1, h2, hrest⟩)
+    · simp [Req.H3.Varint.read, parse]
+    · rw [h1]
+      simp only
+      rw [h2]
+      simp only
+      exact (branch_eof t l r2 fuel).mpr hrest
+
+/-- a stream that ends inside a SETTINGS frame (fewer than the declared bytes, or a payload that
+ends inside a pair) is a truncated frame for `ParseNext`, whatever `parseSettingsFrame` alone says. -/
+theorem h3_settings_truncated_unexpected (te le rest : Bytes) (l fuel : Nat) (ht : IsVarint te 4)
+    (hl : IsVarint le l) (h : (parseSettingsFrame l rest).1 = .error .eof) :
+    (parseNext (fuel + 1) (te ++ (le ++ rest))).1 = .error .unexpectedEOF := by
+  rw [step_header ht hl]
+  simp only [show (4 : Nat) ≠ 0 by decide, show (4 : Nat) ≠ 1 by decide, ↓reduceIte]
+  cases hr : parseSettingsFrame l rest with
+  | mk a b =>
+    rw [hr] at h
+    simp only at h
+    subst h
+    rfl
+
+example : (parseNext 3 [4, 3, 6, 1]).1 = .error .unexpectedEOF ∧
+    (parseNext 3 [4, 3, 6, 1, 7]).1 = .error .unexpectedEOF := by decide
 
 /-- **h3_settings_accept_iff** (RFC 9114 §7.2.4, RFC 9220, RFC 9297): a SETTINGS payload is accepted
 with settings `s` ⇔ it is a sequence of complete (identifier, value) varint pairs — any encodings —
